@@ -113,6 +113,31 @@ def run_case(rnd, k, variants, n_mut=None, **over):
     return {"kind": "run", "rows": gen_rows(rnd, n_mut, rnd.randint(1, 2)), "opts": o, "variants": variants}
 
 
+def cluster_case(rnd, k, variants):
+    """input with a cluster file and --assign-loss-prob: load_data draws from the main generator (permutation test per
+    cluster of >= 4 mutations) before the chains are seeded from it"""
+    sizes = [rnd.randint(4, 6), rnd.randint(4, 5), rnd.randint(4, 5)]
+    prev = [[0.95, 0.9], [rnd.choice([0.3, 0.5]), rnd.choice([0.1, 0.4])], [rnd.choice([0.2, 0.45]), rnd.choice([0.05, 0.3])]]
+    n_samp = rnd.randint(1, 2)
+    rows, crows, m = [], [], 0
+    for c, size in enumerate(sizes):
+        chroms = [str(rnd.randint(1, 3 if c == 2 else 12)) for _ in range(size)]
+        for j in range(size):
+            for s in range(n_samp):
+                depth = rnd.randint(40, 150)
+                alt = max(1, min(depth - 1, round(depth * prev[c][s] / 2 + rnd.uniform(-2, 2))))
+                rows.append([f"m{m}", f"S{s}", depth - alt, alt, 1, 1, 2])
+                crows.append([f"m{m}", f"S{s}", f"cl{c}", prev[c][s], chroms[j]])
+            m += 1
+    rnd.shuffle(rows)
+    rnd.shuffle(crows)
+    o = dict(DEFAULTS)
+    o.update(seed=rnd.randrange(0, 2 ** 31), num_chains=k, proposal=rnd.choice(["semi-adapted", "bootstrap", "fully-adapted"]),
+             outlier_prob=0.0, assign_loss_prob=True, num_particles=rnd.randint(3, 8), num_iters=rnd.randint(15, 40),
+             concentration_update=rnd.random() < 0.5)
+    return {"kind": "run", "rows": rows, "cluster_rows": crows, "opts": o, "variants": variants}
+
+
 def cases(tier, rnd):
     out = []
     tail = [{"kind": "malformed"}, {"kind": "static"}]  # run cases first: a runtime failure makes the better replay
@@ -147,12 +172,17 @@ def cases(tier, rnd):
             over["num_samples_data_point"], over["num_samples_prune_regraph"] = 2, 0
         over["num_iters"] = rnd.randint(15, 60)
         out.append(run_case(rnd, k, vs, n_mut=rnd.randint(3, 8), **over))
+    out.append(cluster_case(rnd, 1, [variant("0"), variant("random", cpus=1), variant(hs())]))
+    out.append(cluster_case(rnd, 2, [variant("0", finish=[0, 1]), variant("random", start=[1, 0], finish=[1, 0])]))
     return out + tail
 
 
 # --------------------------------------------------------------------------------- running the CLI
-def cli_args(o, in_file, out_file, max_time):
+def cli_args(o, in_file, out_file, max_time, cluster_file=None):
     a = ["run", "-i", in_file, "-o", out_file]
+    if cluster_file:
+        a += ["-c", cluster_file]
+    a.append("--assign-loss-prob" if o["assign_loss_prob"] else "--no-assign-loss-prob")
     for key in ("burnin", "num_iters", "thin", "num_chains", "density", "outlier_prob", "proposal", "concentration_value",
                 "grid_size", "num_particles", "num_samples_data_point", "num_samples_prune_regraph", "subtree_update_prob",
                 "precision", "print_freq", "resample_threshold", "seed", "low_loss_prob", "high_loss_prob"):
@@ -161,6 +191,11 @@ def cli_args(o, in_file, out_file, max_time):
     if max_time is not None:
         a += ["--max-time", str(max_time)]
     return a
+
+
+def cluster_file(in_file):
+    f = os.path.join(os.path.dirname(in_file), "clusters.tsv")
+    return f if os.path.exists(f) else None
 
 
 def child_env(extra_path=None):
@@ -188,7 +223,7 @@ def run_variant(work, idx, case, v, in_file, result):
     spec = {"dir": vdir, "timeout": 45, "start": v["start"], "finish": v["finish"], "sleep": v["sleep"],
             "cpus": pick_cpus(v["cpus"], o["seed"] + idx) if v["cpus"] else None}
     env["PHYCLONE_VERIF_C18"] = json.dumps(spec)
-    cmd = [sys.executable, "-c", "import sys; from phyclone.cli import main; sys.exit(main())"] + cli_args(o, in_file, out_file, v["max_time"])
+    cmd = [sys.executable, "-c", "import sys; from phyclone.cli import main; sys.exit(main())"] + cli_args(o, in_file, out_file, v["max_time"], cluster_file(in_file))
     t0 = time.time()
     try:
         p = subprocess.run(cmd, cwd=vdir, env=env, stdout=subprocess.PIPE, stderr=subprocess.PIPE, text=True, timeout=RUN_TIMEOUT)
@@ -211,7 +246,7 @@ def run_variant(work, idx, case, v, in_file, result):
 
 
 def run_ref(work, case, in_file, result):
-    spec = {"opts": case["opts"], "in_file": in_file}
+    spec = {"opts": case["opts"], "in_file": in_file, "cluster_file": cluster_file(in_file)}
     sp, op = os.path.join(work, "ref_spec.json"), os.path.join(work, "ref_out.json")
     json.dump(spec, open(sp, "w"))
     env = child_env()
@@ -286,6 +321,12 @@ def check_run(ctx, case):
             fh.write("\t".join(["mutation_id", "sample_id", "ref_counts", "alt_counts", "major_cn", "minor_cn", "normal_cn"]) + "\n")
             for r in case["rows"]:
                 fh.write("\t".join(str(x) for x in r) + "\n")
+        if case.get("cluster_rows"):
+            ctx.stat("cluster_file_and_assign_loss_prob")
+            with open(os.path.join(work, "clusters.tsv"), "w") as fh:
+                fh.write("\t".join(["mutation_id", "sample_id", "cluster_id", "cellular_prevalence", "chrom"]) + "\n")
+                for r in case["cluster_rows"]:
+                    fh.write("\t".join(str(x) for x in r) + "\n")
         res = {}
         threads = [threading.Thread(target=run_ref, args=(work, case, in_file, res))]
         threads += [threading.Thread(target=run_variant, args=(work, i, case, v, in_file, res)) for i, v in enumerate(variants)]
@@ -487,7 +528,7 @@ def check_zero_chains(ctx, case):
 
 # ------------------------------------------------------------------------------------ static scan
 SAMPLER_PARTS = ("mcmc", "smc", "tree", "data", "utils")
-NP_RANDOM_OK = {"default_rng", "Generator", "SeedSequence", "BitGenerator", "PCG64", "PCG64DXSM", "Philox", "SFC64", "MT19937"}
+NP_RANDOM_OK = {"default_rng", "RandomState", "Generator", "SeedSequence", "BitGenerator", "PCG64", "PCG64DXSM", "Philox", "SFC64", "MT19937"}
 
 
 class Scan(ast.NodeVisitor):
@@ -517,6 +558,8 @@ class Scan(ast.NodeVisitor):
             if a.name == "random":
                 self.std_random.add(nm)
                 self.add("stdlib_random_import", node)
+            elif a.name in ("secrets", "uuid"):
+                self.add("entropy_module_import", node)
             elif a.name == "numpy":
                 self.np_names.add(nm)
             elif a.name == "numpy.random":
@@ -530,6 +573,8 @@ class Scan(ast.NodeVisitor):
             if node.module == "random":
                 self.std_random.add(nm)
                 self.add("stdlib_random_import", node)
+            elif node.module in ("secrets", "uuid") or (node.module == "os" and a.name in ("urandom", "getrandom")):
+                self.add("entropy_module_import", node)
             elif node.module == "numpy" and a.name == "random":
                 self.np_random_names.add(nm)
             elif node.module == "numpy.random":
@@ -556,6 +601,8 @@ class Scan(ast.NodeVisitor):
             self.add("np_random_module_function", node)
         if isinstance(node.value, ast.Name) and node.value.id in self.std_random:
             self.add("stdlib_random_use", node)
+        if isinstance(node.value, ast.Name) and node.value.id == "os" and node.attr in ("urandom", "getrandom"):
+            self.add("os_entropy_use", node)
         if isinstance(node.value, ast.Name) and node.value.id in self.time_names and node.attr in (
                 "time", "time_ns", "perf_counter", "perf_counter_ns", "monotonic", "monotonic_ns", "process_time", "now", "today", "datetime"):
             self.add("clock_use", node)
@@ -577,8 +624,8 @@ class Scan(ast.NodeVisitor):
     def visit_Call(self, node):
         f = node.func
         name = f.attr if isinstance(f, ast.Attribute) else f.id if isinstance(f, ast.Name) else None
-        is_default_rng = (isinstance(f, ast.Attribute) and f.attr == "default_rng" and self.is_np_random(f.value)) or (
-            isinstance(f, ast.Name) and self.from_np_random.get(f.id) == "default_rng")
+        is_default_rng = (isinstance(f, ast.Attribute) and f.attr in ("default_rng", "RandomState") and self.is_np_random(f.value)) or (
+            isinstance(f, ast.Name) and self.from_np_random.get(f.id) in ("default_rng", "RandomState"))
         if is_default_rng:
             unseeded = (not node.args and not node.keywords) or (node.args and isinstance(node.args[0], ast.Constant) and node.args[0].value is None)
             self.add("default_rng_unseeded" if unseeded else "default_rng_seeded", node)
@@ -650,7 +697,8 @@ def check_static(ctx, case):
                     kind = "default_rng_unseeded_allowed_seed_is_None"
                 findings.append((kind, loc, text))
     ctx.stat("static_files_scanned", nfiles)
-    fatal = {"np_random_module_function", "stdlib_random_import", "stdlib_random_use", "default_rng_unseeded", "scipy_rvs_without_random_state"}
+    fatal = {"np_random_module_function", "stdlib_random_import", "stdlib_random_use", "default_rng_unseeded", "scipy_rvs_without_random_state",
+             "entropy_module_import", "os_entropy_use"}
     for kind, loc, text in findings:
         ctx.stat("static_" + kind)
         ctx.stat(f"static@{kind}@{loc.rsplit(':', 1)[0]}")
